@@ -23,7 +23,7 @@ def prop(pid, **kw):
 prop(
     "C08",
     title="The overlap check never admits aliasing layouts",
-    groups=[dict(crate="rten-tensor", prefix="c08", jobs=8, timeout_quick=600, timeout_thorough=3600)],
+    groups=[dict(crate="rten-tensor", prefix="c08", jobs=10, timeout_quick=1200, timeout_thorough=3600)],
     functions=[
         "rten_tensor::overlap::may_have_internal_overlap",
         "rten_tensor::overlap::is_contiguous",
@@ -36,7 +36,7 @@ prop(
             "completeness: contiguous parent of concrete shape, child sizes concrete, per-axis step symbolic 1..7 "
             "(window inside parent), every axis permutation; huge concrete shapes (element counts >= 2^64, e.g. [2,2^63,2], "
             "[2^32,2^32], [usize::MAX]) with symbolic strides and the corner indices {0,1,size-2,size-1} of each axis; "
-            "capacity expansion of 2x2/3x1/2x3 owned tensors with spare capacity, symbolic axis and new size <= 8; unwind 10-20"),
+            "capacity expansion of 2x2/3x1/2x3 owned tensors with spare capacity, symbolic axis and new size <= 5; unwind 10-20"),
     outside=("ranks > 4, sizes > 4 (rank<=3) / > 3 (rank 4), DynLayout's SmallVec path (same generic function, "
              "instantiated for [usize;N] here), reshape-derived layouts (reshape of a contiguous layout is "
              "contiguous, covered by the step=1 case), TensorBase::expanded_layout (calls the same function)"),
@@ -55,7 +55,7 @@ prop(
     title="Loading untrusted model bytes is safe, bounded and well-formed",
     groups=[
         dict(crate="rten-model-file", prefix="c05", jobs=4),
-        dict(crate="rten", prefix="c05", jobs=8, timeout_quick=1200, timeout_thorough=7200),
+        dict(crate="rten", prefix="c05", jobs=8, timeout_quick=1200, timeout_thorough=7200, kani_args=["-Z", "stubbing"]),
     ],
     functions=[
         "rten_model_file::header::Header::from_buf / to_buf",
@@ -70,7 +70,8 @@ prop(
             "unwind 6-34"),
     outside=("the FlatBuffers verifier (third party), ONNX/rten graph construction (hash maps, strings), mmap, constants of "
              "rank > 2 (each further dim adds one symbolic product), element types other than u8/i32"),
-    assumptions=["the claim for whole-file loading = these leaf checks + C06 (constructors) + C38 (protobuf); the composition is argued"],
+    assumptions=["the claim for whole-file loading = these leaf checks + C06 (constructors) + C38 (protobuf); the composition is argued",
+                 "stub: alloc::fmt::format returns an empty String in the two ONNX initializer harnesses (error-message formatting is not the subject)"],
     explanation=("Bounded model checking of the places where untrusted sizes enter: the .rten header, constant "
                  "shape/offset arithmetic of both loaders, and the tensor constructors they end in."),
 )
@@ -78,7 +79,7 @@ prop(
 prop(
     "C06",
     title="Safe tensor APIs never access memory out of bounds or alias mutably",
-    groups=[dict(crate="rten-tensor", prefix="c06", jobs=12, timeout_quick=600, timeout_thorough=3600)],
+    groups=[dict(crate="rten-tensor", prefix="c06", jobs=12, timeout_quick=1200, timeout_thorough=3600)],
     functions=[
         "TensorBase::try_from_data (NdLayout<1..3>, DynLayout rank 2)",
         "TensorBase::from_slice_with_strides / from_data_with_strides / from_storage_and_layout",
@@ -193,14 +194,16 @@ prop(
 prop(
     "C23",
     title="The buffer pool hands out each buffer once with adequate capacity",
-    groups=[dict(crate="rten", prefix="c23", jobs=8, timeout_quick=1500, timeout_thorough=7200)],
+    groups=[dict(crate="rten", prefix="c23", jobs=6, timeout_quick=1500, timeout_thorough=7200)],
     functions=[
         "buffer_pool::Buffer::{from_vec, can_fit, layout_match, into_vec, release, drop}",
         "buffer_pool::BufferPool::{new, with_min_size, add, alloc, len}",
     ],
-    bounds=("pool pre-state: two pooled buffers with concrete element types and capacities from a family (u32x16, u32x24, u64x8, "
-            "[u16;2]x16, u8x16, u8x64, f32x8, i16x32, ...), min_size 16/32 bytes; one alloc::<T>(req) step with symbolic "
-            "req <= 64 for T in {f32, i64, u32, i8, u8, i16}; Buffer round trips for 4 type pairs; unwind 6"),
+    bounds=("pool pre-state: two pooled buffers with concrete element types and capacities from a family (quick: u32x4, u32x6, "
+            "u64x2, [u16;2]x4, u8x4, u8x16 with min_size 8 bytes; thorough adds u32x16/x24, f32x8, u64x4, u8x32, i16x32, u16x16 "
+            "with min_size 16/32), in both pool orders; one alloc::<T>(req) step with symbolic req (<= 4..20 quick, <= 64 "
+            "thorough) for T in {f32, i64, u32, [u16;2], i8, u8, i16}; Buffer round trips for 6 type pairs (same layout, "
+            "different size, larger and smaller alignment); unwind 6"),
     outside=("symbolic capacities (ran out of memory at 33 GB), more than two pooled buffers, histories longer than one step, "
              "thread interleavings (all pool state is behind one Mutex, so each interleaving equals a sequential order of "
              "steps: argued, not solved), PoolRef/ExtractBuffer wrappers"),
@@ -291,8 +294,9 @@ prop(
     ],
     bounds=("(n, k) concrete per harness: n in 0..=4 and k in 0..=4 incl. k<n, k=n, k>n (thorough: n=6,7 reach the vector "
             "body); logits symbolic f32 bit patterns (ordinary = no NaN, no -0.0; all-bits variants include them); TopP: "
-            "n in 1..=3 (4 thorough), probabilities and p symbolic in [0,1]; chain TopP->TopK on 2 candidates; unwind 6-10"),
-    outside=("softmax normalisation inside TopP (exp), AVX paths, Temperature/token-id filters, n > 7"),
+            "n in 0..=3 (4 thorough), probabilities and p symbolic in [0,1]; sparse token ids (symbolic, distinct) for n=3,4; unwind 4-10"),
+    outside=("softmax normalisation inside TopP (exp), AVX paths, Temperature/token-id filters, n > 7; Chain::filter itself "
+             "(a three-line fold: composition argued; a chained harness with a symbolic-length intermediate did not finish in 30 min)"),
     assumptions=["cfg(kani) dispatches to the generic ISA", "TopP inputs are probabilities in [0,1] without NaN"],
     explanation=("Bounded model checking of the filters against their contracts stated as predicates over the output: "
                  "count, sub-multiset of the input pairs, descending order, nothing dropped exceeds anything kept "
@@ -335,8 +339,8 @@ prop(
     title="External tensor data cannot escape the model directory or its file bounds",
     groups=[dict(crate="rten", prefix="c21", jobs=4, timeout_quick=2400, timeout_thorough=14400)],
     functions=["model::external_data::is_allowed_external_data_path", "std::path::Path::{components, extension} (as compiled)"],
-    bounds=("every location string of 0..=6 symbolic bytes (7 and 8 thorough) plus 12 fixed longer locations (traversal, "
-            "nesting, absolute, Windows-style, split-file names); unwind 10-24"),
+    bounds=("every location string of 0..=6 symbolic bytes (7 and 8 thorough) plus 8 fixed longer locations, one per harness "
+            "(traversal, nesting, absolute, ./, Windows-style, split-file names); unwind 10-24"),
     outside=("the offset/length checks of MemLoader/MmapLoader/FileLoader: they sit behind a HashMap<String,_> lookup or real "
              "files (hash maps measured out of reach; I/O); locations longer than 8 bytes other than the fixed ones"),
     assumptions=["Unix path semantics (the build target)"],
@@ -344,14 +348,3 @@ prop(
                  "model of 'a single plain data filename directly in the model directory'."),
 )
 
-prop(
-    "C39",
-    title="CTC decoding returns distinct, correctly scored hypotheses",
-    groups=[dict(crate="rten", prefix="c39", jobs=4, timeout_quick=2400, timeout_thorough=14400)],
-    functions=["ctc::CtcDecoder::decode_greedy", "ops::reduce::arg_max / select_max_index (f32, axis 1)", "ctc::CtcHypothesis::{steps, score}"],
-    bounds="[T, L] matrices with (T,L) in {(2,2),(3,2)} (thorough: (2,3),(3,3)), symbolic non-NaN f32 entries; unwind 8-10",
-    outside="beam search (exp/ln in log_sum_exp, HashMap merge table), NaN log-probabilities, larger matrices",
-    assumptions=["label path compared only when every row has a unique maximum; the score (sum of row maxima) is compared always"],
-    explanation=("Bounded model checking of greedy CTC decoding, through the real arg-max reduction kernel, against the "
-                 "collapsed arg-max path and the bit-exact left-to-right f32 sum."),
-)
